@@ -20,6 +20,9 @@ import (
 	"rcproxy/core/codec"
 )
 
+// maxLenDigits is the longest decimal that is certain to fit in an int64
+const maxLenDigits = 18
+
 func parseLen(p []byte) (int, error) {
 	if len(p) < 1 {
 		return -1, errors.New("malformed length")
@@ -27,6 +30,11 @@ func parseLen(p []byte) (int, error) {
 
 	if p[0] == '-' && len(p) == 2 && p[1] == '1' {
 		return -1, nil
+	}
+
+	// redis only accepts canonical decimals: no leading zeros, nothing that overflows
+	if (p[0] == '0' && len(p) > 1) || len(p) > maxLenDigits {
+		return -1, codec.ErrInvalidResp
 	}
 
 	var n int
